@@ -591,7 +591,7 @@ def gen_ops(cases, rng, n_random):
 
 
 TEXT_ALPHA = ["a", "b", " ", "&", "<", ">", '"', "'", " ", "¢", "é", "€", "\U0001f600", ";",
-              "amp;", "&lt;", "\n", "Â", "\u0080", "-", "/", "="]
+              "amp;", "&lt;", "\n", "Â", "\u0080", "-", "/", "=", "\ufeff"]
 
 
 def rnd_text(rng, lo=0, hi=8, extra=()):
